@@ -133,6 +133,7 @@ def coq_build() -> tuple[bool, str]:
     WORK_ROOT.mkdir(exist_ok=True)
     with open(WORK_ROOT / "build.lock", "w") as lk:
         fcntl.flock(lk, fcntl.LOCK_EX)
+        run([sys.executable, str(VERIF / "tools" / "mkcoqproject.py")])
         if not (COQ / "Makefile").exists() or \
                 (COQ / "Makefile").stat().st_mtime < (COQ / "_CoqProject").stat().st_mtime:
             rc, out = run(["coq_makefile", "-f", "_CoqProject", "-o", "Makefile"], cwd=COQ)
